@@ -114,6 +114,23 @@ with sp_body (fuel : nat) (D : defs) (inp : list (item * val)) (args : key) (loc
               else Err k
           | OutOfFuel => OutOfFuel
           end
+      | SFin e c :: more =>
+          (* the clean-up is always evaluated; its failure replaces a pending one *)
+          match sp_expr f D inp args locs e with
+          | Val v =>
+              match sp_expr f D inp args locs c with
+              | Val _ => sp_body f D inp args (locs ++ [v]) more
+              | Err k2 => Err k2
+              | OutOfFuel => OutOfFuel
+              end
+          | Err k =>
+              match sp_expr f D inp args locs c with
+              | Val _ => Err k
+              | Err k2 => Err k2
+              | OutOfFuel => OutOfFuel
+              end
+          | OutOfFuel => OutOfFuel
+          end
       end
   end.
 
